@@ -344,6 +344,51 @@ Proof.
 Qed.
 
 
+(* the two branches of Algebra.matrix_basis (combinations of the generators for a default basis, products along the
+   blade names for a custom basis) give the same matrices on every default algebra of dimension 1..4: the model's
+   single definition (the blades branch) is faithful to both branches of the code *)
+Definition branches_agree (d : nat) : bool :=
+  forallb (fun sig => forallb (fun st => let A := mk_default sig st false in
+                                         list_eqb mat_eqb (matrix_basis A) (matrix_basis_default_branch A)) [0; 1; 2]) (all_sigs d).
+Lemma branches_agree_1 : branches_agree 1 = true. Proof. vm_compute. reflexivity. Qed.
+Lemma branches_agree_2 : branches_agree 2 = true. Proof. vm_compute. reflexivity. Qed.
+Lemma branches_agree_3 : branches_agree 3 = true. Proof. vm_cast_no_check (eq_refl true). Qed.
+Lemma branches_agree_4 : branches_agree 4 = true. Proof. vm_cast_no_check (eq_refl true). Qed.
+
+Theorem matrix_basis_default_branch_le4 : forall sig start,
+  (1 <= length sig <= 4)%nat -> Forall (fun s => s = 1 \/ s = -1 \/ s = 0) sig ->
+  (start = 0 \/ start = 1 \/ start = 2) ->
+  matrix_basis (mk_default sig start false) = matrix_basis_default_branch (mk_default sig start false).
+Proof.
+  intros sig start Hl Hsig Hst.
+  assert (Hgen : forall d, branches_agree d = true -> length sig = d ->
+                 matrix_basis (mk_default sig start false) = matrix_basis_default_branch (mk_default sig start false)).
+  { intros d Hc Hd. unfold branches_agree in Hc. rewrite forallb_forall in Hc. subst d.
+    specialize (Hc sig (all_sigs_complete sig Hsig)). rewrite forallb_forall in Hc.
+    assert (Hin : In start [0; 1; 2]) by (cbn [In]; destruct Hst as [H|[H|H]]; subst start; auto).
+    specialize (Hc start Hin). cbv zeta in Hc.
+    revert Hc. generalize (matrix_basis (mk_default sig start false)) (matrix_basis_default_branch (mk_default sig start false)).
+    induction l as [|a l IH]; intros [|b l2] H; try discriminate; [reflexivity|].
+    cbn [list_eqb] in H. apply andb_true_iff in H. destruct H as [H1 H2].
+    apply mat_eqb_true in H1. subst b. f_equal. apply IH. exact H2. }
+  assert (Hd : length sig = 1%nat \/ length sig = 2%nat \/ length sig = 3%nat \/ length sig = 4%nat) by lia.
+  destruct Hd as [Hd|[Hd|[Hd|Hd]]].
+  - exact (Hgen 1%nat branches_agree_1 Hd).
+  - exact (Hgen 2%nat branches_agree_2 Hd).
+  - exact (Hgen 3%nat branches_agree_3 Hd).
+  - exact (Hgen 4%nat branches_agree_4 Hd).
+Qed.
+
+(* custom bases (after the repair of finding F10): the named algebras 2DPGA and 3DPGA and a basis with permuted
+   generators and spellings satisfy the same blade-level check *)
+Definition named_2dpga : res alg := mk_custom (sig_of_pqr 2 0 1) [[];[1];[2];[0];[2;0];[0;1];[1;2];[0;1;2]]%nat false.
+Definition named_3dpga : res alg :=
+  mk_custom (sig_of_pqr 3 0 1) [[];[1];[2];[3];[0];[0;1];[0;2];[0;3];[1;2];[3;1];[2;3];[0;3;2];[0;1;3];[0;2;1];[1;2;3];[0;1;2;3]]%nat false.
+Definition custom_cl111 : res alg := mk_custom [1; -1; 0] [[];[3];[1];[2];[3;1];[1;2];[2;3];[2;3;1]]%nat false.
+Definition res_hom_ok (r : res alg) : bool := match r with Ok A => hom_ok A | Err _ => false end.
+Lemma hom_ok_named_custom : res_hom_ok named_2dpga = true /\ res_hom_ok named_3dpga = true /\ res_hom_ok custom_cl111 = true.
+Proof. vm_compute. repeat split. Qed.
+
 (* ================= 3. unbounded consequences of hom_ok ================= *)
 
 (* zindex: the first position *)
@@ -784,9 +829,10 @@ Qed.
 
 (* ================= 5. custom bases ================= *)
 
-(* Algebra(2, 0, 1, basis=['e','e1','e2','e0','e20','e01','e12','e012']): the matrix basis is ordered
-   by signature index (e0 first) and by combinations of the generators, the canonical keys by the
-   custom basis, and asmatrix pairs them by position.  KNOWN DEFECT: the check fails. *)
+(* Algebra(2, 0, 1, basis=['e','e1','e2','e0','e20','e01','e12','e012']).  Before the repair of finding F10 the
+   matrix basis of a custom algebra was built by the combinations branch (ordered by signature index, e0 first)
+   while asmatrix pairs matrices and canonical keys by position: 34 of the 64 blade pairs failed.  The repaired
+   code builds every blade matrix along its name; the check passes. *)
 Definition pga2d_custom : res alg :=
   mk_custom (sig_of_pqr 2 0 1) [[]; [1]; [2]; [0]; [2; 0]; [0; 1]; [1; 2]; [0; 1; 2]]%nat false.
 
@@ -794,42 +840,22 @@ Example pga2d_custom_keys :
   (A <- pga2d_custom ;; Ok (canon_keys A, a_sig A, a_start A)) = Ok ([0; 1; 2; 4; 6; 5; 3; 7], [0; 1; 1], 0).
 Proof. vm_compute. reflexivity. Qed.
 
-Example hom_ok_pga2d_custom : (A <- pga2d_custom ;; Ok (hom_ok A)) = Ok false.
+Example hom_ok_pga2d_custom : (A <- pga2d_custom ;; Ok (hom_ok A)) = Ok true.
 Proof. vm_compute. reflexivity. Qed.
 
-(* the first failing pair is (e1, e1): e1 e1 = +1 in the sign table, but position 1 of the matrix
-   basis holds the representation of the NULL vector e0, whose square is the zero matrix *)
-Example hom_ok_pga2d_custom_first_bad : (A <- pga2d_custom ;; Ok (first_bad_pair A)) = Ok (Some (1, 1)).
-Proof. vm_compute. reflexivity. Qed.
-
-Example hom_ok_pga2d_custom_e1e1 :
+(* the regression: with the combinations branch (what the code used before the repair) 34 of the 64 pairs fail *)
+Example hom_ok_pga2d_custom_old_branch_count :
   (A <- pga2d_custom ;;
-   Ok (sgn A 1 1, mat_eqb (mat_mul (basis_mat A 1) (basis_mat A 1)) (mat_zero 8),
-       mat_eqb (basis_mat A 1) (nth 1 (matrix_rep [0; 1; 1]) [])))
-  = Ok (1, true, true).
-Proof. vm_compute. reflexivity. Qed.
-
-(* 34 of the 64 pairs fail *)
-Example hom_ok_pga2d_custom_count :
-  (A <- pga2d_custom ;;
-   Ok (length (filter (fun IJ => negb (pair_ok A (matrix_basis A) (fst IJ) (snd IJ)))
+   Ok (length (filter (fun IJ => negb (pair_ok A (matrix_basis_default_branch A) (fst IJ) (snd IJ)))
                       (list_prod (canon_keys A) (canon_keys A))))) = Ok 34%nat.
 Proof. vm_compute. reflexivity. Qed.
 
-(* on the level of multivectors: (e1 * e1).asmatrix() = identity, e1.asmatrix() @ e1.asmatrix() = 0 *)
-Example asmatrix_hom_fails_pga2d_custom :
+(* on the level of multivectors: (e1 * e1).asmatrix() = e1.asmatrix() @ e1.asmatrix() = identity *)
+Example asmatrix_hom_pga2d_custom :
   (A <- pga2d_custom ;;
    Ok (gp Zops A [(1, 1)] [(1, 1)],
-       mat_eqb (asmatrix A (gp Zops A [(1, 1)] [(1, 1)])) (mat_mul (asmatrix A [(1, 1)]) (asmatrix A [(1, 1)])),
-       mat_eqb (mat_mul (asmatrix A [(1, 1)]) (asmatrix A [(1, 1)])) (mat_zero 8)))
-  = Ok ([(0, 1)], false, true).
-Proof. vm_compute. reflexivity. Qed.
-
-(* column 0 is still the unit vector e_i, so frommatrix (asmatrix x) = x survives in this basis *)
-Example col0_pga2d_custom :
-  (A <- pga2d_custom ;;
-   Ok (forallb (fun i => list_eqb Z.eqb (mat_col 0 (nth i (matrix_basis A) [])) (unit_vec 8 i)) (seq 0 8)))
-  = Ok true.
+       mat_eqb (asmatrix A (gp Zops A [(1, 1)] [(1, 1)])) (mat_mul (asmatrix A [(1, 1)]) (asmatrix A [(1, 1)]))))
+  = Ok ([(0, 1)], true).
 Proof. vm_compute. reflexivity. Qed.
 
 (* the default 2DPGA basis (e0 e1 e2) passes *)
